@@ -168,4 +168,50 @@ def interpPrint (cl : Nat) (wd sw : List Rune → Nat) (fuel : Nat) (r : Rune) (
       | none => none
       | some st2 => postPhase sw post st2
 
+/-! ### the run loop over the interpreted bodies
+
+`ParserIO.runLoop` with `readRune` / `print` replaced by the interpretation of statement skeletons
+(`rbody`, `pbody` — the driver passes the bodies regenerated from the source).  `none` = a body could
+not be interpreted.  Widths are not part of the delivered items here (`Props.C02Text.print_width`). -/
+
+def deliverI (pbody : List RStmt) (clusterAt : Nat → Nat) (startPos : Nat) : List Seq → Rd → Option (List Item × Rd)
+  | [], rd => some ([], rd)
+  | .print r :: rest, rd =>
+    match interpPrint (max 1 (clusterAt startPos)) (fun _ => 0) (fun _ => 0) (rd.remaining + 1) r pbody rd with
+    | none => none
+    | some (g, _, rd') =>
+      match deliverI pbody clusterAt startPos rest rd' with
+      | none => none
+      | some (items, rd'') => some (.print g :: items, rd'')
+  | s :: rest, rd =>
+    match deliverI pbody clusterAt startPos rest rd with
+    | none => none
+    | some (items, rd') => some (.seq s :: items, rd')
+
+def runLoopI (rbody pbody : List RStmt) (T : VaxisModel.Model.Parser.Table) (clusterAt : Nat → Nat) : Nat → PState → Rd → Option (List Item)
+  | 0, _, _ => some [.seq .panic]
+  | fuel + 1, s, rd =>
+    let start := rd.pos
+    match readRuneI rbody rd with
+    | none => none
+    | some (none, _) =>
+      let o := step T s .eof
+      some (o.out.map .seq ++ [.seq .eof])
+    | some (some r, rd1) =>
+      let o := step T s (.rune r)
+      match deliverI pbody clusterAt start o.out rd1 with
+      | none => none
+      | some (items, rd2) =>
+        if o.stop then some (items ++ [.seq .eof])
+        else match runLoopI rbody pbody T clusterAt fuel o.st rd2 with
+          | none => none
+          | some more => some (items ++ more)
+
+/-- Everything delivered for a stream split into the given reads, executing the given bodies. -/
+def runChunksI (rbody pbody : List RStmt) (T : VaxisModel.Model.Parser.Table) (clusterAt : Nat → Nat) (chunks : List (List Byte)) :
+    Option (List Item) :=
+  let chunks := chunks.filter (!·.isEmpty)
+  let rd : Rd := { buf := [], chunks := chunks }
+  runLoopI rbody pbody T clusterAt (rd.remaining + 2) PState.init rd
+
 end VaxisModel.Model.ParserReaderInterp
